@@ -40,6 +40,9 @@ pub enum Step {
     /// controller sleeps this many whole seconds (it lives at xx.5 s)
     Sleep { s: u64 },
     Write { doc: usize },
+    /// like Write, but the file's mtime ends up OLDER than any seen so far
+    /// (a backup restored with its timestamps, a clock stepped backwards)
+    WriteBackdated { doc: usize },
     Touch,
     /// text that is invalid by construction, derived from `doc`
     Damage { kind: u8, doc: usize },
@@ -223,7 +226,8 @@ pub fn generate(rng: &mut Rng, tier: Tier) -> Scn {
     let mut steps = vec![];
     for _ in 0..nsteps {
         steps.push(Step::Sleep { s: *rng.pick(&[1u64, 1, 2, 3, 6, 31]) });
-        steps.push(match rng.weighted(&[5, 2, 2, 2, 2, 1, 1]) {
+        steps.push(match rng.weighted(&[5, 2, 2, 2, 2, 1, 1, 2]) {
+            7 => Step::WriteBackdated { doc: rng.below(ndocs as u64) as usize },
             0 => Step::Write { doc: rng.below(ndocs as u64) as usize },
             1 => Step::Touch,
             2 => Step::Damage { kind: rng.below(4) as u8, doc: rng.below(ndocs as u64) as usize },
@@ -310,6 +314,7 @@ pub fn execute(scn: &Scn, opts: &ExecOpts) -> Outcome {
             }
             kernel::sim_sleep(Duration::from_millis(500));
             let mut last_text = render(&scn.docs[0], 0);
+            let mut backdated: i64 = 0;
             for st in &scn.steps {
                 let now = clock::now_ns();
                 let write = |text: &str| {
@@ -326,6 +331,16 @@ pub fn execute(scn: &Scn, opts: &ExecOpts) -> Outcome {
                     Step::Write { doc } => {
                         let t = render(&scn.docs[*doc], *doc);
                         write(&t);
+                        last_text = t.clone();
+                        edits.lock().unwrap().push(Edit { at_ns: now, state: FileState::Text(t) });
+                    }
+                    Step::WriteBackdated { doc } => {
+                        let t = render(&scn.docs[*doc], *doc);
+                        let _ = fs::remove_dir_all(&path);
+                        let _ = fs::remove_file(&path);
+                        fs::write(&path, &t).unwrap();
+                        backdated += 1;
+                        set_mtime(&path, common::T0_NS - (10 + backdated) * 3_600_000_000_000);
                         last_text = t.clone();
                         edits.lock().unwrap().push(Edit { at_ns: now, state: FileState::Text(t) });
                     }
